@@ -807,12 +807,105 @@ def rule_r5(prog, res):
                     'once: %s' % [unparse(c) for c in apps])
 
 
+# ------------------------------------------------------------------- R6
+STATE_MUTATORS = ('add', 'discard', 'remove', 'append', 'pop', 'clear',
+                  'update', 'setdefault', 'extend', 'insert', 'popitem')
+
+
+def rule_r6(prog, res):
+    res.rule('R6', 'delivering an event changes no state of the event '
+             'manager (a raising listener cannot disable later deliveries)')
+    em = prog.cls('spyne.evmgr:EventManager')
+    f = em.methods.get('fire_event')
+    if f is None:
+        raise AnalysisError('EventManager.fire_event', 'not found')
+    writes = []
+    for n in walk_no_defs(f.node):
+        if isinstance(n, (ast.Assign, ast.AugAssign, ast.Delete)):
+            tg = n.targets if isinstance(n, (ast.Assign, ast.Delete)) else \
+                [n.target]
+            for t in tg:
+                if unparse(t).startswith('self.'):
+                    writes.append((n, unparse(t)))
+        if isinstance(n, ast.Call) and isinstance(n.func, ast.Attribute) \
+                and n.func.attr in STATE_MUTATORS and unparse(
+                n.func.value).startswith('self.'):
+            writes.append((n, unparse(n)[:40]))
+    # writes undone in a finally clause of the same function are paired
+    unpaired = []
+    for n, txt in writes:
+        in_finally = False
+        cur = n
+        while cur is not None and cur is not f.node:
+            p_ = parent(cur)
+            if isinstance(p_, ast.Try) and cur in p_.finalbody:
+                in_finally = True
+            cur = p_
+        guarded = any(t.finalbody and any(
+            isinstance(x, ast.Call) and isinstance(x.func, ast.Attribute) and
+            x.func.attr in STATE_MUTATORS for fb in t.finalbody
+            for x in ast.walk(fb))
+            for t, region in __import__('sa.flow', fromlist=['x'])
+            .enclosing_trys(n, stop=f.node) if region == 'body')
+        # acquire; try: ... finally: release  (the write right before a try
+        # whose finally clause touches the same attribute)
+        following_try = False
+        st = n
+        while st is not None and not isinstance(st, ast.stmt):
+            st = parent(st)
+        blk = parent(st) if st is not None else None
+        recv = None
+        if isinstance(n, ast.Call) and isinstance(n.func, ast.Attribute):
+            recv = unparse(n.func.value)
+        for fld in ('body', 'orelse', 'finalbody'):
+            lst = getattr(blk, fld, None)
+            if isinstance(lst, list) and st in lst:
+                i = lst.index(st)
+                if i + 1 < len(lst) and isinstance(lst[i + 1], ast.Try) and \
+                        lst[i + 1].finalbody and recv is not None and any(
+                        isinstance(x, ast.Call) and isinstance(
+                            x.func, ast.Attribute) and unparse(
+                            x.func.value) == recv
+                        for fb in lst[i + 1].finalbody
+                        for x in ast.walk(fb)):
+                    following_try = True
+        if not in_finally and not guarded and not following_try:
+            unpaired.append((n, txt))
+    res.ob('R6', f.where, 'EventManager.fire_event: %d write(s) to manager '
+           'state, %d not undone in a finally clause' % (len(writes),
+                                                         len(unpaired)),
+           'VIOLATED' if unpaired else 'ok')
+    for n, txt in unpaired[:3]:
+        res.finding('R6', 'EventManager.fire_event|state-write|%s' % txt,
+                    '%s:%d' % (f.module.relpath, n.lineno),
+                    'fire_event writes manager state (%s) that is not '
+                    'restored in a finally clause: when a listener raises '
+                    'the state stays behind, and later calls on the same '
+                    'application no longer deliver that event (the user '
+                    'function then runs without its method_call listeners)' %
+                    txt)
+    loops = [l_ for l_ in walk_no_defs(f.node) if isinstance(l_, ast.For)]
+    res.floor('R6', 'delivery loops in fire_event', len(loops), 1)
+
+
+def rule_r7(prog, res, tier):
+    from . import c13, c10
+    from ..report import Result
+    txt = ('faults of the request phases are raised inside the funnel that '
+           'fires the exception events (C13-R4 lazy refusal, C10-R1 '
+           'recording handlers)')
+    res.share('R7', txt, 'C13', c13.rule_r4, prog, Result)
+    res.share('R7', txt, 'C10', c10.rule_r1, prog, Result, tier)
+
+
 def run(prog, res, tier):
     res.run_rule(rule_r1, prog, res, tier)
     res.run_rule(rule_r2, prog, res)
     res.run_rule(rule_r3, prog, res)
     res.run_rule(rule_r4, prog, res)
     res.run_rule(rule_r5, prog, res)
+    res.run_rule(rule_r6, prog, res)
+    res.run_rule(rule_r7, prog, res, tier)
 
 
 _A = 'spyne/application.py'
@@ -825,6 +918,25 @@ _D = 'spyne/descriptor.py'
 _O = 'spyne/util/oset.py'
 
 MUTANTS = [
+    Mutant('reentrancy-guard-leaks', 'R6', 'fire', 'spyne/evmgr.py',
+           in_func('EventManager.fire_event',
+                   "        for handler in handlers:\n"
+                   "            handler(ctx, *args, **kwargs)",
+                   "        self._firing.add(event_name)\n"
+                   "        for handler in handlers:\n"
+                   "            handler(ctx, *args, **kwargs)\n"
+                   "        self._firing.discard(event_name)"),
+           'state-write'),
+    Mutant('reentrancy-guard-in-finally', 'R6', 'benign', 'spyne/evmgr.py',
+           in_func('EventManager.fire_event',
+                   "        for handler in handlers:\n"
+                   "            handler(ctx, *args, **kwargs)",
+                   "        self._firing.add(event_name)\n"
+                   "        try:\n"
+                   "            for handler in handlers:\n"
+                   "                handler(ctx, *args, **kwargs)\n"
+                   "        finally:\n"
+                   "            self._firing.discard(event_name)"), None),
     Mutant('drop-exception-object-in-except-exception', 'R1', 'fire', _A,
            in_func('Application.process_request',
                    r"(get_fault_string_from_exception\(e\)\)\n\n)"
